@@ -354,6 +354,7 @@ async def _emit_run_end(
         return
 
     from hypergraph.events.types import RunEndEvent
+    from hypergraph.runners._shared.event_helpers import error_text
 
     duration_ms = (time.time() - start_time) * 1000
     await dispatcher.emit_async(
@@ -363,7 +364,7 @@ async def _emit_run_end(
             parent_span_id=parent_span_id,
             graph_name=graph.name,
             status="failed" if error is not None else "completed",
-            error=str(error) if error is not None else None,
+            error=error_text(error) if error is not None else None,
             duration_ms=duration_ms,
         )
     )
